@@ -27,7 +27,7 @@ import (
 
 // Run is the entry point for C10.
 func Run(ctx *core.Ctx) {
-	ctx.Rule = "cases: message bodies = sequences of <= 4 parts from the collision pool of SoyMsg.tla (PoolC10: $a.x $b.x $x $x_1 $xx1 $a[0] $a+1 <a> <a href=x> </a> <br/> and two texts), plurals over 3 subjects x case sets {1},{0,1},{2} with case bodies from a 6-part pool, plus nested plurals (a plural inside a case or the default of a plural, five slots filled with placeholders of one base name), the text|meaning splits of three strings, and the extra bodies (vectors pinned by the repo's tests, tag table, tag names in every letter-case pattern, every kind of printable expression (data refs of 1..3 segments, null-safe, bracket access, $ij, globals with 0..3 dots, calls, literals, operators), texts given as bytes that are not valid UTF-8, grouping pairs, print directives, identifiers, globals); all enumerated by TLC with the expected names/placeholder string/id key. Each body is compiled by the real compiler repeatedly (thorough: 50x, 1000x where a suffixed name can collide with a base name; quick: 300x for those, 50x, 12x for 4-part flat bodies, 10x for bodies with < 2 named nodes) alone, several times embedded among other messages and code with varied descriptions, and in 3 fresh processes; the text|meaning splits are also compiled as histories in fresh processes (forwards, backwards, shuffled, each alone). A case is non-trivial if it has at least one named node; distinct by family id"
+	ctx.Rule = "cases: message bodies = sequences of <= 4 parts from the collision pool of SoyMsg.tla (PoolC10: $a.x $b.x $x $x_1 $xx1 $a[0] $a+1 <a> <a href=x> </a> <br/> and two texts), plurals over 3 subjects x case sets {1},{0,1},{2} with case bodies from a 6-part pool, plus nested plurals (a plural inside a case or the default of a plural, five slots filled with placeholders of one base name), the text|meaning splits of three strings, a message under 11 meanings with quotes / backslashes / newline / tab / braces / outer spaces / non-ASCII (and such descriptions, hidden, meaning=\"\" written out), and the extra bodies (vectors pinned by the repo's tests, tag table, tag names in every letter-case pattern, every kind of printable expression (data refs of 1..3 segments, null-safe, bracket access, $ij, globals with 0..3 dots, calls, literals, operators), texts given as bytes that are not valid UTF-8, grouping pairs, print directives, identifiers, globals); all enumerated by TLC with the expected names/placeholder string/id key. Each body is compiled by the real compiler repeatedly (thorough: 50x, 1000x where a suffixed name can collide with a base name; quick: 300x for those, 50x, 12x for 4-part flat bodies, 10x for bodies with < 2 named nodes) alone, several times embedded among other messages and code with varied descriptions, and in 3 fresh processes; the text|meaning splits are also compiled as histories in fresh processes (forwards, backwards, shuffled, each alone). A case is non-trivial if it has at least one named node; distinct by family id"
 	ctx.Assumptions = append(ctx.Assumptions,
 		"oracle = SoyMsg.tla (official naming algorithm over sequences; base names as pinned by soymsg/placeholder_test.go and the Closure Templates definition); a tag's name is what precedes the first non-alphanumeric character, lower-cased (h1 -> START_H_1 as the identifier rule gives; whether official Soy spells it START_H1 is not settled and no repo test pins it); phname and html tags that contain a print are outside the model",
 		"the 64-bit fingerprint is uninterpreted in TLA+ (fp/mix); its arithmetic is checked by golden vectors and by an independent Go transcription (trusted base)",
@@ -143,7 +143,7 @@ func repsFor(ctx *core.Ctx, c *MsgCase) int {
 
 // ---- M1 ---------------------------------------------------------------------
 
-const m1Invariants = "NamesAreFunction NameProps BreadthFirst TagCaseInsensitive IdIgnoresDesc IdCountsMeaning IdSeparatesTextAndMeaning BytesKeepIdentity KeyFollowsPhString PluralInKey ContextFree WellFormedFamily"
+const m1Invariants = "NamesAreFunction NameProps BreadthFirst TagCaseInsensitive IdIgnoresDesc IdCountsMeaning IdSeparatesTextAndMeaning MeaningIsItsText BytesKeepIdentity KeyFollowsPhString PluralInKey ContextFree WellFormedFamily"
 
 func m1Cfg(maxParts, maxInner int, dev, only, invs string) string {
 	return fmt.Sprintf("SPECIFICATION Spec\nCONSTANTS\n  MaxParts = %d\n  MaxInner = %d\n  Dev = {%s}\n  OnlyCase = %q\nINVARIANTS %s\nCHECK_DEADLOCK FALSE\n",
@@ -181,6 +181,7 @@ func runDeviations(ctx *core.Ctx) {
 		{"id_key_joined", "IdSeparatesTextAndMeaning"},
 		{"tag_case_kept", "TagCaseInsensitive"},
 		{"fp_of_valid_utf8", "BytesKeepIdentity"},
+		{"meaning_kept_quoted", "MeaningIsItsText"},
 	}
 	selftest := map[string]interface{}{}
 	var wg sync.WaitGroup
